@@ -44,4 +44,153 @@ theorem fixedCount_eq_nFixed (c : Cal) : fixedCount c = nFixed c := by
   rw [List.countP_eq_length_filter]
   congr 1
 
+/-! ### Measurement scan -/
+
+theorem measClass_iff (m : Meas) (c : MCal) (b : Bool) :
+    measClass m c = some b ↔ MeasMatches c m ∧ exactRank c = (if b then 1 else 0) := by
+  unfold measClass MeasMatches exactRank
+  by_cases h1 : m.name = c.name <;> by_cases h2 : m.target.isSome = c.target.isSome <;>
+    cases hq : c.qubit <;> cases b <;> simp [h1, h2] <;> grind
+
+def fi (m : Meas) (b : Bool) (l : List (MCal × Nat)) : Option Nat :=
+  (l.find? (fun p => measClass m p.1 == some b)).map (·.2)
+
+theorem measScan_eq (m : Meas) (l : List (MCal × Nat)) (ex wc : Option Nat) :
+    measScan m l (ex, wc) = (ex.or (fi m true l), wc.or (fi m false l)) := by
+  induction l generalizing ex wc with
+  | nil => simp [measScan, fi]
+  | cons p l ih =>
+    obtain ⟨c, i⟩ := p
+    unfold measScan
+    cases hc : measClass m c with
+    | none => simp [ih, fi, hc]
+    | some b =>
+      cases b <;> cases ex <;> cases wc <;> simp [ih, fi, hc, firstExtend]
+
+theorem zipIdx_snoc_reverse (cs : List MCal) (c : MCal) :
+    (cs ++ [c]).zipIdx.reverse = (c, cs.length) :: cs.zipIdx.reverse := by
+  simp [List.zipIdx_append]
+
+/-- the last position of class `b` -/
+def LastOf (m : Meas) (b : Bool) (cs : List MCal) : Option Nat → Prop
+  | some i => ∃ c, cs[i]? = some c ∧ measClass m c = some b ∧
+      ∀ (j : Nat) d, cs[j]? = some d → measClass m d = some b → j ≤ i
+  | none => ∀ (j : Nat) d, cs[j]? = some d → measClass m d ≠ some b
+
+theorem fi_lastOf_snoc (m : Meas) (b : Bool) (cs : List MCal) (c : MCal)
+    (ih : LastOf m b cs (fi m b cs.zipIdx.reverse)) :
+    LastOf m b (cs ++ [c]) (fi m b (cs ++ [c]).zipIdx.reverse) := by
+    rw [zipIdx_snoc_reverse]
+    have split : ∀ (j : Nat) d, (cs ++ [c])[j]? = some d → cs[j]? = some d ∨ (j = cs.length ∧ d = c) := by
+      intro j d hj
+      by_cases hlt : j < cs.length
+      · left; simpa [List.getElem?_append_left hlt] using hj
+      · have : j = cs.length ∨ cs.length < j := by omega
+        rcases this with rfl | hgt
+        · right; simp at hj; exact ⟨rfl, hj.symm⟩
+        · rw [List.getElem?_eq_none (by simp; omega)] at hj; cases hj
+    by_cases hc : measClass m c = some b
+    · have : fi m b ((c, cs.length) :: cs.zipIdx.reverse) = some cs.length := by simp [fi, hc]
+      rw [this]
+      refine ⟨c, by simp, hc, ?_⟩
+      intro j d hj _
+      rcases split j d hj with hp | ⟨rfl, _⟩
+      · exact Nat.le_of_lt (List.getElem?_eq_some_iff.mp hp).1
+      · exact Nat.le_refl _
+    · have : fi m b ((c, cs.length) :: cs.zipIdx.reverse) = fi m b cs.zipIdx.reverse := by
+        simp [fi, hc]
+      rw [this]
+      generalize fi m b cs.zipIdx.reverse = o at ih
+      match o, ih with
+      | none, ih =>
+        intro j d hj
+        rcases split j d hj with hp | ⟨_, rfl⟩
+        · exact ih j d hp
+        · exact hc
+      | some i, ⟨w, hw, hcw, hb⟩ =>
+        have hi : i < cs.length := (List.getElem?_eq_some_iff.mp hw).1
+        refine ⟨w, by simpa [List.getElem?_append_left hi] using hw, hcw, ?_⟩
+        intro j d hj hd
+        rcases split j d hj with hp | ⟨_, rfl⟩
+        · exact hb j d hp hd
+        · exact absurd hd hc
+
+theorem fi_lastOf (m : Meas) (b : Bool) (cs : List MCal) :
+    LastOf m b cs (fi m b cs.zipIdx.reverse) := by
+  have aux : ∀ r : List MCal, LastOf m b r.reverse (fi m b r.reverse.zipIdx.reverse) := by
+    intro r
+    induction r with
+    | nil => simp [fi, LastOf]
+    | cons c r ih => rw [List.reverse_cons]; exact fi_lastOf_snoc m b _ c ih
+  simpa using aux cs.reverse
+
+/-! ### CalibrationSet -/
+
+section Set
+variable {α σ : Type} [DecidableEq σ] (sig : α → σ)
+
+theorem sigPos_none_iff (s : σ) (cs : List α) : sigPos sig s cs = none ↔ ∀ c ∈ cs, sig c ≠ s := by
+  induction cs with
+  | nil => simp [sigPos]
+  | cons c cs ih =>
+    unfold sigPos
+    by_cases h : sig c = s <;> simp [h, ih]
+
+theorem sigPos_some (s : σ) (cs : List α) (i : Nat) (h : sigPos sig s cs = some i) :
+    ∃ c, cs[i]? = some c ∧ sig c = s ∧ ∀ (j : Nat) d, j < i → cs[j]? = some d → sig d ≠ s := by
+  induction cs generalizing i with
+  | nil => simp [sigPos] at h
+  | cons c cs ih =>
+    unfold sigPos at h
+    by_cases hc : sig c = s
+    · simp [hc] at h; subst h
+      exact ⟨c, by simp, hc, by intro j d hj; omega⟩
+    · simp only [hc, if_false, Option.map_eq_some_iff] at h
+      obtain ⟨k, hk, rfl⟩ := h
+      obtain ⟨w, hw, hs, hfirst⟩ := ih k hk
+      refine ⟨w, by simpa using hw, hs, ?_⟩
+      intro j d hj hd
+      cases j with
+      | zero => simp at hd; subst hd; exact hc
+      | succ j => exact hfirst j d (by omega) (by simpa using hd)
+
+/-- the pointwise update that an in-place replacement amounts to -/
+def upd (v : α) (c : α) : α := if sig c = sig v then v else c
+
+theorem sig_upd (v c : α) : sig (upd sig v c) = sig c := by
+  unfold upd; by_cases h : sig c = sig v <;> simp [h]
+
+theorem map_upd_of_not_mem (v : α) (cs : List α) (h : ∀ c ∈ cs, sig c ≠ sig v) :
+    cs.map (upd sig v) = cs := by
+  induction cs with
+  | nil => rfl
+  | cons c cs ih =>
+    have hc : sig c ≠ sig v := h c (by simp)
+    simp only [List.map_cons, upd, hc, if_false]
+    rw [show cs.map (upd sig v) = cs from ih (fun d hd => h d (by simp [hd]))]
+
+theorem set_eq_map_upd (v : α) (cs : List α) (i : Nat) (hnd : NoDupSig sig cs)
+    (h : sigPos sig (sig v) cs = some i) : cs.set i v = cs.map (upd sig v) := by
+  induction cs generalizing i with
+  | nil => simp [sigPos] at h
+  | cons c cs ih =>
+    unfold NoDupSig at hnd
+    rw [List.pairwise_cons] at hnd
+    unfold sigPos at h
+    by_cases hc : sig c = sig v
+    · simp [hc] at h; subst h
+      have : cs.map (upd sig v) = cs := map_upd_of_not_mem sig v cs (fun d hd => by
+        have := hnd.1 d hd; rw [hc] at this; exact fun e => this e.symm)
+      simp [upd, hc, this]
+    · simp only [hc, if_false, Option.map_eq_some_iff] at h
+      obtain ⟨k, hk, rfl⟩ := h
+      simp [upd, hc, ih k hnd.2 hk]
+
+theorem noDupSig_map_upd (v : α) (cs : List α) (h : NoDupSig sig cs) :
+    NoDupSig sig (cs.map (upd sig v)) := by
+  unfold NoDupSig at *
+  rw [List.pairwise_map]
+  simpa [sig_upd] using h
+
+end Set
 end QV.C16
